@@ -244,6 +244,9 @@ func Judge(e *rt.Entry, sc *prog.Scenario, x *rt.Exec) []Viol {
 			break
 		}
 	}
+	for _, n := range x.LateNotes() {
+		j.add(uniq("C15"), "%s", n)
+	}
 	// ---- C15: Bare programs - nothing may be read from an argument variable
 	// once a user function has been entered -------------------------------------
 	if p.Bare {
